@@ -235,6 +235,7 @@ def check_signatures(ctx):
 
 def check_primitive(ctx, fi, spec, flags):
     ex = SymExec(fi, flags=flags, call_hook=vec_hook, vectors=True)
+    ex.ssa = True
     known = spec.get('params')
     for p in fi.params:
         if p != 'self':
